@@ -16,7 +16,7 @@ func vxH_C14_indexDiff() {
 		quotas = []int{0, 4, 5, 8, 10, 12, 13, 17, 18, 24, 30, 64}
 	}
 	n := 1 + vxChoose(maxN)
-	ents := vxNewEnts(n, vxKL, 0, vxOpsSet)
+	ents := vxNewEnts(n, vxKL, 0, vxOpsSetDel) // tombstones are indexed like any other entry
 	seg := vxSegOf(ents)
 	twin := vxSegOf(ents)
 	quota := quotas[vxChoose(len(quotas))]
